@@ -787,7 +787,7 @@ def t1_typestate(chk):
     """typestate analysis of compile() (rules/compile_ts.py): end-to-end bookkeeping invariants for an arbitrary
     module over every outcome of every component call"""
     from rules import compile_ts
-    compile_ts.ts_rule(chk, 'C07.T1', ['escape', 'accounted', 'status-effect', 'once', 'verbatim', 'failed-pairing', 'stale-failure', 'failure-forgotten', 'own-key'])
+    compile_ts.ts_rule(chk, 'C07.T1', ['escape', 'accounted', 'status-effect', 'once', 'verbatim', 'failed-pairing', 'stale-failure', 'failure-forgotten', 'missing-reported', 'own-key'])
 
 
 
@@ -801,6 +801,12 @@ def r10_generators_start_clean(chk):
                  'modules after it fail or come out differently (C12.R2)', floor=12)
 
 
+
+def r11_format_arity(chk):
+    """a message that cannot be built turns a package error into a TypeError that leaves compile()"""
+    common.format_arity(chk, 'C07.R11', sorted(r for r in chk.model.modules if r.startswith('pysmi/')), floor=60)
+
+
 RULES = [r9_wellformedness, r1_containment, r2_no_package_raise_escapes, r3_status_values, r4_no_silent_drop, r4b_popped_name_accounted,
          r5_failed_result_pairing, r6_single_writer_site, r7_foreign_exceptions,
-         r8_closure_discovery, t1_typestate, r10_generators_start_clean]
+         r8_closure_discovery, t1_typestate, r10_generators_start_clean, r11_format_arity]
